@@ -140,7 +140,9 @@ func (d *Driver) Lines(ev *Event) (ops [][]int64, obs [][]int64) {
 		op := append([]int64{EvStep, int64(ev.Mode)}, d.descr(r)...)
 		op = append(op, hintSec()...)
 		var o []int64
-		if r.Execs > 0 && r.State >= StExecuted {
+		if ev.Mode == ModeCrash {
+			o = append(o, 1) // what the dying server would have answered is not an observation
+		} else if r.Execs > 0 && r.State >= StExecuted {
 			o = append(o, 1)
 			o = append(o, d.replyLine(r)...)
 		} else {
@@ -161,6 +163,12 @@ func (d *Driver) Lines(ev *Event) (ops [][]int64, obs [][]int64) {
 		add([]int64{EvLeader}, nil)
 	case EvProbe:
 		add(append([]int64{EvProbe}, ev.Args...), ev.Obs)
+	case EvInject:
+		for _, r := range ev.NewRPCs {
+			if r.Client < 0 {
+				add(append([]int64{EvInject}, d.descr(r)...), nil)
+			}
+		}
 	}
 	for _, r := range ev.NewRPCs {
 		if r.Client >= 0 {
@@ -190,6 +198,8 @@ func (d *Driver) Lines(ev *Event) (ops [][]int64, obs [][]int64) {
 				l = append(l, 0)
 			}
 			add(l, []int64{777, 1})
+		case EvInject:
+			// the probe's reply was compared at its step line
 		default:
 			add([]int64{15, int64(f.Op.ID)}, []int64{int64(f.Err)})
 		}
